@@ -100,10 +100,10 @@ class Table(dict):
             buffer_df = buffer_df.drop_duplicates(subset=self.idx_cols, keep='last')
             buffer_df = self._create_index_from_cols(buffer_df, self.idx_cols)
 
-            # Update existing rows and append new rows
+            # Replace existing rows and append new rows (concat finds a common dtype; an in-place
+            # .loc update raises when a real is upserted into an integer column)
             common_idx = self._df.index.intersection(buffer_df.index)
-            self._df.loc[common_idx] = buffer_df.loc[common_idx]
-            self._df = pd.concat([self._df, buffer_df.loc[~buffer_df.index.isin(common_idx)]])
+            self._df = pd.concat([self._df.drop(index=common_idx), buffer_df])
             self._df.sort_index(inplace=True)
         else:
             values = np.concatenate([self._df.values] + [y.reshape(1, -1) for y in self.buffer])
